@@ -455,6 +455,9 @@ class Ctx:
         self.acc.hooks(r)
         if r.status == "wallclock":
             self.acc.inconc("worker-wallclock")
+            if len(self.acc.notes) < 40:
+                d = data if isinstance(data, bytes) else str(data).encode("utf-8", "replace")
+                self.acc.notes.append("wallclock: input[%d bytes] %r elem_evals=%s expr_evals=%s" % (len(d), d[:120], r.get("elem_evals"), r.get("expr_evals")))
         elif r.status == "harness":
             self.acc.inconc("harness-error")
         return r
